@@ -57,6 +57,11 @@ fn main() {
     panic::set_hook(Box::new(|_| {}));
     let mut out = serde_json::Map::new();
     let mut ctx = CelContext::new();
+    if let Some(progs) = req["programs"].as_object() {
+        for (name, src) in progs.iter() {
+            let _ = ctx.add_program_str(name, src.as_str().unwrap_or(""));
+        }
+    }
     let e2 = expr.clone();
     let compiled = panic::catch_unwind(panic::AssertUnwindSafe(|| ctx.add_program_str("main", &e2)));
     match compiled {
